@@ -237,13 +237,18 @@ func (w *c02Worker) checkRebuild(res *runner.CaseResult, t *twinRun) {
 		}
 		seqs = append(seqs, head)
 	}
-	for pass := 0; pass < 2; pass++ {
+	for pass := 0; pass < 3; pass++ {
 		// pass 0: descending with a cold cache each time; pass 1: ascending, warm
+		// (cache entry always older than the request); pass 2: descending, warm
+		// (cache entry always newer than the request)
 		for i := range seqs {
 			s := seqs[i]
 			if pass == 0 {
 				s = seqs[len(seqs)-1-i]
 				w.env.BE.Cache.Snapshot.Remove(di.RefKey())
+			}
+			if pass == 2 {
+				s = seqs[len(seqs)-1-i]
 			}
 			doc, err := packs.BuildInternalDocForServerSeq(ctx, w.env.BE, di, s)
 			if err != nil {
@@ -252,7 +257,7 @@ func (w *c02Worker) checkRebuild(res *runner.CaseResult, t *twinRun) {
 			}
 			res.AddStat("rebuilds_compared", 1)
 			if want, ok := contents[s]; ok && doc.Marshal() != want {
-				res.Violate("server-rebuild-differs", fmt.Sprintf("BuildInternalDocForServerSeq(%d) (pass %d, 0=cold 1=warm):\n got  %s\n want %s (change-fed shadow)", s, pass, doc.Marshal(), want), "", t.H)
+				res.Violate("server-rebuild-differs", fmt.Sprintf("BuildInternalDocForServerSeq(%d) (pass %d: 0=cold 1=warm-ascending 2=warm-descending):\n got  %s\n want %s (change-fed shadow)", s, pass, doc.Marshal(), want), "", t.H)
 				return
 			}
 		}
